@@ -158,6 +158,12 @@ func (d *Disk) flushMmapStores(why string) {
 	}
 }
 
+// FlushMmap turns pending mmap stores into FMPs now.  The executor calls it
+// before it changes the recovery-oracle bookkeeping (acknowledgement of a
+// transaction, phase changes), so that a store is attributed to the operation
+// that made it.
+func (d *Disk) FlushMmap() { d.flushMmapStores("sync-point") }
+
 func diffRange(old, cur []byte) (int, int) {
 	n := len(cur)
 	if len(old) < n {
